@@ -1626,6 +1626,11 @@ class ResultsPage(object):
             return self.results.__getitem__(slice(start + offset,
                                                   stop + offset, step))
         else:
+            # n indexes the hits of this page, like a list
+            if n < 0:
+                n += self.pagelen
+            if n < 0 or n >= self.pagelen:
+                raise IndexError("page index out of range")
             return self.results.__getitem__(n + offset)
 
     def __iter__(self):
